@@ -153,7 +153,7 @@ BUILDER_INVS = ["TypeOK", "Inv_NoPanic", "Inv_C18", "Inv_C13", "Inv_Twin", "Inv_
 
 
 def builder_consts(N, types, shape="all", **dev):
-    c = dict(N=N, Types=set(types), Shape=shape)
+    c = dict(N=N, Types=set(types), Shape=shape, ChildOrder="any")
     d = dict(BUILDER_DEV)
     d.update(dev)
     c.update(d)
@@ -363,4 +363,14 @@ def plan_for(prop, tier, seed):
         P["rule"] = "two overlapping runs on one graph; non-trivial = runs re-executed alone on a fresh graph and compared event by event"
     else:
         raise SystemExit(f"unknown property {prop}")
+    # hook-level conformance (impl -> design model): a rotating selection of option sets per property
+    off = int(prop[1:]) * 7 + seed
+    nrun = 24 if T else 5
+    if prop in ("C01", "C02", "C03", "C04", "C06", "C07", "C08", "C09", "C10"):
+        P["impl"] = [dict(kind="run", index=off + 13 * i, sample=1 if T else 2) for i in range(nrun)]
+    if prop in ("C01", "C02", "C03", "C05", "C08"):
+        P["impl"] = P.get("impl", []) + [dict(kind="stream", index=off + i) for i in range(15 if (T or prop == "C05") else 3)]
+    if prop in ("C11", "C12", "C13", "C18"):
+        P["impl"] = [dict(kind="builder", family="builder_exh", sample=4 if T else 40), dict(kind="builder", family="dense"),
+                     dict(kind="builder", family="builder_rand", count=400 if T else 100)]
     return P
